@@ -190,6 +190,15 @@ Definition traf_senc (p : N) (moof_start senc_start : N) (saio_off : option N) (
   if r_pending r then parse_read_senc p moof_start senc_start saio_off r
   else Ok (mkSenc 0 (negb (N.land (r_flags r) 2 =? 0)) (r_count r) [] []).
 
+(* the seig branch of TrafBox.ParseReadSenc: `perSampleIVSize := defaultIVSize` (tenc), and when the traf's sbgp and
+   sgpd are seig sample groups (one sbgp entry pointing at the first fragment-local sgpd entry)
+   `perSampleIVSize = seigEntry.PerSampleIVSize`.  seig = that value when the traf carries such a group *)
+Definition effective_iv_size (tenc_p : N) (seig : option N) : N :=
+  match seig with Some q => q | None => tenc_p end.
+
+Definition traf_senc_seig (tenc_p : N) (seig : option N) (moof_start senc_start : N) (saio_off : option N) (box : list N)
+  : res senc := traf_senc (effective_iv_size tenc_p seig) moof_start senc_start saio_off box.
+
 (* ---------------------------------------------------------------- SencBox.AddSample, repaired text *)
 (* func (s *SencBox) AddSample(sample SencSample) error after the fix commits ecf1460 and 0b086ee in /repo: a sample
    without IV after samples with per-sample IVs is refused, and once sub-sample encryption is in use SubSamples
